@@ -1,7 +1,7 @@
 from propcfg.common import *
 
 CFG = {
-    "disabled": True,
+    "disabled": False,
     "props": "Props/C18.v",
     "corr": ["Corr/StoreCorr.v"],
     "engines": [("store", [])],
